@@ -23,15 +23,6 @@ Proof.
   - intros H. destruct (path_eqb a b) eqn:E; [apply path_eqb_eq in E; contradiction|reflexivity].
 Qed.
 
-Lemma langs_eqb_eq : forall a b, langs_eqb a b = true -> a = b.
-Proof.
-  induction a as [|[x1 y1] a IH]; destruct b as [|[x2 y2] b]; cbn; intros H; try discriminate; [reflexivity|].
-  apply andb_true_iff in H. destruct H as [H H3]. apply andb_true_iff in H. destruct H as [H1 H2].
-  apply N.eqb_eq in H1, H2. subst. f_equal. auto.
-Qed.
-Lemma langs_eqb_refl : forall a, langs_eqb a a = true.
-Proof. induction a as [|[x y] a IH]; cbn; [reflexivity|]. now rewrite !N.eqb_refl, IH. Qed.
-
 Lemma lstats_eqb_refl : forall s, lstats_eqb s s = true.
 Proof. intros s. unfold lstats_eqb. now rewrite !N.eqb_refl. Qed.
 
@@ -120,6 +111,9 @@ End Assoc.
 Section WithOracles.
 Variable truth : N -> N -> option lstats.
 Variable csize : N -> N.
+Variable chash : langs -> N.
+(* the assumption on compute_config_hash: different [languages] tables have different hashes *)
+Hypothesis chash_inj : forall a b, chash a = chash b -> a = b.
 
 (* the entry was computed truthfully from the content it names, under the table cfg *)
 Definition entry_ok (cfg : langs) (p : path) (e : centry) : Prop :=
@@ -137,7 +131,7 @@ Definition older (last : N) (es : list (path * centry)) : Prop :=
   forall p e, lookup p es = Some e -> ce_mtime e < last.
 
 Definition hash_ok (cf : cache_file) : Prop :=
-  match cf with CValid _ (Some h) es => entries_ok h es | _ => True end.
+  match cf with CValid _ (Some h) es => forall cfg, chash cfg = h -> entries_ok cfg es | _ => True end.
 
 Record Inv (w : world) (last : N) : Prop := mkInv {
   inv_nodup : NoDup (map fst (w_files w));
@@ -249,31 +243,32 @@ Proof.
   - reflexivity.
 Qed.
 
-Lemma load_cache_some : forall cf cfg es, load_cache cf cfg = Some es ->
-  exists h, cf = CValid CACHE_VERSION (Some h) es /\ h = cfg.
+Lemma load_cache_some : forall cf cur es, load_cache cf cur = Some es ->
+  cf = CValid CACHE_VERSION (Some cur) es.
 Proof.
-  intros cf cfg es H. unfold load_cache in H. destruct cf as [| |v h es0]; try discriminate.
+  intros cf cur es H. unfold load_cache in H. destruct cf as [| |v h es0]; try discriminate.
   destruct (N.eqb v CACHE_VERSION) eqn:Ev; [|discriminate]. cbn in H.
   destruct h as [h|]; cbn in H; [|discriminate].
-  destruct (langs_eqb h cfg) eqn:Eh; [|discriminate]. inversion H; subst.
-  apply N.eqb_eq in Ev. apply langs_eqb_eq in Eh. subst. exists cfg. auto.
+  destruct (N.eqb h cur) eqn:Eh; [|discriminate]. inversion H; subst.
+  apply N.eqb_eq in Ev, Eh. now subst.
 Qed.
 
 (* one invocation: transparent, and the invariant is re-established with the clock at now *)
 Lemma run_cached_spec : forall w excl now last, Inv w last -> last <= now ->
-  fst (run_cached truth csize w excl now) = run_uncached truth csize w excl now /\
-  Inv (snd (run_cached truth csize w excl now)) now.
+  fst (run_cached truth csize chash w excl now) = run_uncached truth csize w excl now /\
+  Inv (snd (run_cached truth csize chash w excl now)) now.
 Proof.
   intros w excl now last [Hnd Hhash Hfresh Holder] Hle.
   rewrite run_uncached_ref by exact Hnd. unfold run_cached.
   set (fs := filter (in_scope excl) (w_files w)).
-  set (es0 := match load_cache (w_cache w) (w_cfg w) with Some es => es | None => [] end).
+  set (es0 := match load_cache (w_cache w) (chash (w_cfg w)) with Some es => es | None => [] end).
   assert (Hnd_fs : NoDup (map fst fs)) by (now apply NoDup_filter_keys).
   assert (Hfs_in : forall p f, In (p, f) fs -> lookup p (w_files w) = Some f).
   { intros p f Hin. apply filter_In in Hin. destruct Hin as [Hin _]. now apply In_lookup. }
   assert (H0 : entries_ok (w_cfg w) es0 /\ fresh (w_files w) es0 /\ older last es0).
-  { subst es0. destruct (load_cache (w_cache w) (w_cfg w)) as [es|] eqn:El.
-    - apply load_cache_some in El. destruct El as (h & Hcf & ->). rewrite Hcf in Hhash, Hfresh, Holder. cbn in *. auto.
+  { subst es0. destruct (load_cache (w_cache w) (chash (w_cfg w))) as [es|] eqn:El.
+    - apply load_cache_some in El. rewrite El in Hhash, Hfresh, Holder. cbn in *.
+      split; [apply Hhash; reflexivity|auto].
     - repeat split; intros p e; try intros f; cbn; discriminate. }
   destruct H0 as (Hok0 & Hfresh0 & Holder0).
   destruct (process_all_spec (w_cfg w) now fs es0 Hnd_fs) as [Hout Hframe].
@@ -283,7 +278,8 @@ Proof.
   split; [exact Hout|].
   constructor; cbn [w_files w_cfg w_cache raw_entries hash_ok].
   - exact Hnd.
-  - intros p e He. destruct (Hframe p) as [Hsame|(f & l & s & Hin & Hl & Ht & Hlt & Hnew)].
+  - intros cfg' Hc. apply chash_inj in Hc. subst cfg'.
+    intros p e He. destruct (Hframe p) as [Hsame|(f & l & s & Hin & Hl & Ht & Hlt & Hnew)].
     + rewrite Hsame in He. exact (Hok0 p e He).
     + rewrite Hnew in He. inversion He; subst. exists l. cbn. auto.
   - intros p e f He Hf Hm. destruct (Hframe p) as [Hsame|(f' & l & s & Hin & Hl & Ht & Hlt & Hnew)].
@@ -300,9 +296,9 @@ Definition time_ok (last : N) (o : op) : Prop := match op_time o with Some t => 
 
 Lemma step_spec : forall w last o, Inv w last -> time_ok last o ->
   racy_rename csize w o = false -> forgery w o = false ->
-  Inv (fst (step truth csize w o)) (next_last last o) /\
+  Inv (fst (step truth csize chash w o)) (next_last last o) /\
   racy_write csize w o = false /\
-  (forall r, snd (step truth csize w o) = Some r -> fst r = snd r).
+  (forall r, snd (step truth csize chash w o) = Some r -> fst r = snd r).
 Proof.
   intros w last o HI Ht Hrr Hfg. pose proof HI as [Hnd Hhash Hfresh Holder].
   destruct o as [p c t|p|p q|c|k|k excl t]; cbn [step fst snd next_last op_time time_ok racy_write] in *.
@@ -353,7 +349,7 @@ Proof.
     + constructor; cbn; [exact Hnd|exact I| |]; intros q e; try intros f; cbn; discriminate.
   - (* Run *)
     destruct (run_cached_spec w excl t last HI Ht) as [Heq HI'].
-    destruct (run_cached truth csize w excl t) as [out w'] eqn:Er. cbn [fst snd] in *.
+    destruct (run_cached truth csize chash w excl t) as [out w'] eqn:Er. cbn [fst snd] in *.
     split; [exact HI'|]. split; [reflexivity|]. intros r Hr. inversion Hr. cbn [fst snd]. exact Heq.
 Qed.
 
@@ -367,11 +363,11 @@ Proof.
 Qed.
 
 Lemma exec_spec : forall h w last, Inv w last -> monotone_from last h = true ->
-  any_along truth csize (racy_rename csize) w h = false ->
-  any_along truth csize forgery w h = false ->
-  Forall (fun r => fst r = snd r) (snd (exec truth csize w h)) /\
-  any_along truth csize (racy_write csize) w h = false /\
-  exists last', Inv (fst (exec truth csize w h)) last'.
+  any_along truth csize chash (racy_rename csize) w h = false ->
+  any_along truth csize chash forgery w h = false ->
+  Forall (fun r => fst r = snd r) (snd (exec truth csize chash w h)) /\
+  any_along truth csize chash (racy_write csize) w h = false /\
+  exists last', Inv (fst (exec truth csize chash w h)) last'.
 Proof.
   induction h as [|o tl IH]; intros w last HI Hm Hrr Hfg.
   - cbn. split; [constructor|]. split; [reflexivity|]. now exists last.
@@ -381,8 +377,8 @@ Proof.
     destruct (step_spec w last o HI Ht Hrr1 Hfg1) as (HI1 & Hrw & Hr).
     destruct (IH _ _ HI1 Hm Hrr2 Hfg2) as (Hall & Hrw2 & Hlast).
     cbn [exec any_along]. rewrite Hrw, Hrw2.
-    destruct (step truth csize w o) as [w1 r] eqn:Es. cbn [fst snd] in *.
-    destruct (exec truth csize w1 tl) as [w2 rs] eqn:Ee. cbn [fst snd] in *.
+    destruct (step truth csize chash w o) as [w1 r] eqn:Es. cbn [fst snd] in *.
+    destruct (exec truth csize chash w1 tl) as [w2 rs] eqn:Ee. cbn [fst snd] in *.
     split; [|split; [reflexivity|exact Hlast]].
     destruct r as [x|]; [constructor; [apply Hr; reflexivity|exact Hall]|exact Hall].
 Qed.
@@ -394,8 +390,8 @@ Proof.
 Qed.
 
 Theorem transparent_modulo_known : forall h,
-  monotone_clock h = true -> has_racy_rename truth csize h = false -> has_forgery truth csize h = false ->
-  transparent truth csize h = true.
+  monotone_clock h = true -> has_racy_rename truth csize chash h = false -> has_forgery truth csize chash h = false ->
+  transparent truth csize chash h = true.
 Proof.
   intros h Hm Hrr Hfg. unfold transparent.
   destruct (exec_spec h world0 0 Inv_world0 Hm Hrr Hfg) as (Hall & _ & _).
@@ -404,8 +400,8 @@ Proof.
 Qed.
 
 Theorem no_racy_write : forall h,
-  monotone_clock h = true -> has_racy_rename truth csize h = false -> has_forgery truth csize h = false ->
-  has_racy_write truth csize h = false.
+  monotone_clock h = true -> has_racy_rename truth csize chash h = false -> has_forgery truth csize chash h = false ->
+  has_racy_write truth csize chash h = false.
 Proof.
   intros h Hm Hrr Hfg. destruct (exec_spec h world0 0 Inv_world0 Hm Hrr Hfg) as (_ & H & _). exact H.
 Qed.
@@ -413,9 +409,9 @@ Qed.
 (* the reachable-state invariant in words: in every reachable world, an entry of a loadable cache
    whose (mtime, size) match the file now at its path carries that file's true statistics *)
 Theorem cache_invariant : forall h,
-  monotone_clock h = true -> has_racy_rename truth csize h = false -> has_forgery truth csize h = false ->
-  let w := fst (exec truth csize world0 h) in
-  forall es p e f, load_cache (w_cache w) (w_cfg w) = Some es ->
+  monotone_clock h = true -> has_racy_rename truth csize chash h = false -> has_forgery truth csize chash h = false ->
+  let w := fst (exec truth csize chash world0 h) in
+  forall es p e f, load_cache (w_cache w) (chash (w_cfg w)) = Some es ->
     lookup p es = Some e -> lookup p (w_files w) = Some f ->
     metadata_matches e (f_mtime f) (csize (f_cid f)) = true ->
     exists l, lang_of (w_cfg w) p = Some l /\ truth l (f_cid f) = Some (ce_stats e).
@@ -423,35 +419,37 @@ Proof.
   intros h Hm Hrr Hfg w es p e f Hl He Hf Hmm.
   destruct (exec_spec h world0 0 Inv_world0 Hm Hrr Hfg) as (_ & _ & last' & [Hnd Hhash Hfresh Holder]).
   fold w in Hnd, Hhash, Hfresh, Holder.
-  apply load_cache_some in Hl. destruct Hl as (hh & Hcf & ->). rewrite Hcf in Hhash, Hfresh. cbn in Hhash, Hfresh.
-  destruct (Hhash p e He) as (l & Hlang & Ht & _). exists l. split; [exact Hlang|].
+  apply load_cache_some in Hl. rewrite Hl in Hhash, Hfresh. cbn in Hhash, Hfresh.
+  destruct (Hhash (w_cfg w) eq_refl p e He) as (l & Hlang & Ht & _). exists l. split; [exact Hlang|].
   rewrite <- (Hfresh p e f He Hf Hmm). exact Ht.
 Qed.
 
 (* ---------------------------------------------------------------- corruption, configuration hash *)
 Theorem corrupt_is_ignored : forall w excl now,
-  load_cache (w_cache w) (w_cfg w) = None ->
-  fst (run_cached truth csize w excl now) = run_uncached truth csize w excl now.
+  load_cache (w_cache w) (chash (w_cfg w)) = None ->
+  fst (run_cached truth csize chash w excl now) = run_uncached truth csize w excl now.
 Proof.
   intros w excl now H. unfold run_cached, run_uncached. rewrite H.
   destruct (process_all truth csize (w_cfg w) now [] (filter (in_scope excl) (w_files w))). reflexivity.
 Qed.
 
-End WithOracles.
-
-Lemma corrupt_unloadable : forall k cf cfg,
-  match k with KGarbage | KRemove | KBadHash => True | KVersion v => v <> CACHE_VERSION | KForge _ _ => False end ->
-  load_cache (corrupt k cf) cfg = None.
+(* a cache is loaded only if it carries the hash of the current [languages] table, and (injectivity)
+   any table with that hash assigns every path the same language as the current one *)
+Lemma config_hash_sufficient : forall cf cfg es, load_cache cf (chash cfg) = Some es ->
+  cf = CValid CACHE_VERSION (Some (chash cfg)) es /\
+  forall cfg', chash cfg' = chash cfg -> forall p, lang_of cfg' p = lang_of cfg p.
 Proof.
-  intros k cf cfg H. destruct k as [|v| | |p s]; cbn [corrupt]; try reflexivity; try contradiction.
-  - apply N.eqb_neq in H. rewrite H. destruct cf as [| |v0 h es]; try reflexivity. cbn. now rewrite H.
-  - destruct cf as [| |v0 h es]; try reflexivity. cbn. now rewrite andb_false_r.
+  intros cf cfg es H. apply load_cache_some in H. split; [exact H|].
+  intros cfg' Hc p. apply chash_inj in Hc. now subst.
 Qed.
 
-(* a cache is loaded only if it was written under exactly this [languages] table, and then every
-   path has the same language as when the entries were computed *)
-Lemma config_hash_sufficient : forall cf cfg es, load_cache cf cfg = Some es ->
-  exists h, cf = CValid CACHE_VERSION (Some h) es /\ forall p, lang_of h p = lang_of cfg p.
+End WithOracles.
+
+Lemma corrupt_unloadable : forall k cf (cur : N),
+  match k with KGarbage | KRemove | KBadHash => True | KVersion v => v <> CACHE_VERSION | KForge _ _ => False end ->
+  load_cache (corrupt k cf) cur = None.
 Proof.
-  intros cf cfg es H. apply load_cache_some in H. destruct H as (h & Hcf & ->). exists cfg. auto.
+  intros k cf cur H. destruct k as [|v| | |p s]; cbn [corrupt]; try reflexivity; try contradiction.
+  - apply N.eqb_neq in H. rewrite H. destruct cf as [| |v0 h es]; try reflexivity. cbn. now rewrite H.
+  - destruct cf as [| |v0 h es]; try reflexivity. cbn. now rewrite andb_false_r.
 Qed.
